@@ -3,6 +3,7 @@ import VlsModel.Gen.FnEnforce
 import VlsModel.Lemmas.FnGen
 import VlsModel.Lemmas.EnforcementFn
 import VlsModel.Lemmas.HandlerFn
+import VlsModel.Gen.FnEnforceTest
 import VlsModel.Lemmas.SecretsFn
 import VlsModel.Lemmas.SecretsSound
 import VlsModel.Props.C03
@@ -853,5 +854,22 @@ example :
   decide
 
 end HandlerArms
+
+/-! ### The unguarded counterparty setters (round 9)
+
+`EnforcementState::set_next_counterparty_{commit,revoke}_num_for_testing` (validator.rs:858/874) write the counterparty counters
+(and shift the point) without the window / retry guards tied above, for EVERY number.  Compiled only under `cfg(test)` /
+feature `test_utils`; the model has no request for them. -/
+theorem C03_fn_set_next_counterparty_commit_num_for_testing {P : Type} (e : Gen.FnEnforceTest.EnforcementState P)
+    (num : Nat) (pt : P) :
+    e.set_next_counterparty_commit_num_for_testing num pt
+      = { e with next_counterparty_commit_num := num, current_counterparty_point := some pt,
+                 previous_counterparty_point := e.current_counterparty_point } := by
+  rfl
+
+theorem C03_fn_set_next_counterparty_revoke_num_for_testing {P : Type} (e : Gen.FnEnforceTest.EnforcementState P)
+    (num : Nat) :
+    e.set_next_counterparty_revoke_num_for_testing num = { e with next_counterparty_revoke_num := num } := by
+  rfl
 
 end VlsModel.Props.C03Fn
